@@ -77,10 +77,10 @@ pub struct BuiltInScalars { pub all: &'static HashMap<Name, Node<ScalarType>>, p
 
 UNIT = {
     "name": "schema_rules",
-    "properties": ["C15"],
+    "properties": ["C15", "C14"],
     "parts": [
         PRELUDE,
-        dict(file=SV, kind="fn", name="validate_type_system_name", props=["C15"],
+        dict(file=SV, kind="fn", name="validate_type_system_name", props=["C15", "C14"],
              rewrites=[("location.is_some_and(|loc| loc.file_id == FileId::BUILT_IN)", "is_built_in_location(&location)", 1),
                        ('name.starts_with("__")', 'name_starts_with(name, "__")', 1)],
              clauses=[("ensures", "reserved_prefix_is_reported_unless_built_in",
